@@ -90,11 +90,11 @@ func checkPadHelper(c *Check, w *World, tb *TB, rule string, f *ssa.Function) {
 			}
 			if a == "len("+in+")" && b == wd {
 				switch op {
-				case token.GEQ:
-					long = 1
-				case token.LSS:
+				case token.GEQ, token.GTR:
+					long = 1 // (at len == width both branches give the same bytes)
+				case token.LSS, token.LEQ:
 					long = 2
-				case token.GTR, token.LEQ, token.EQL, token.NEQ:
+				case token.EQL, token.NEQ:
 					okAll, why = false, "the split between truncation and padding is at len "+op.String()+" width, not len >= width"
 				}
 			}
@@ -118,7 +118,13 @@ func checkPadHelper(c *Check, w *World, tb *TB, rule string, f *ssa.Function) {
 					case *ssa.Call:
 						if CalleeName(x.Common()) == "builtin.copy" {
 							d, s := tb.Of(x.Call.Args[0]), tb.Of(x.Call.Args[1])
-							if d.String() == rt.String() && s.String() == in {
+							// destination: the buffer, or its prefix [:len(input)] / [:width] (copy moves len(input) bytes either way)
+							dstOK := d.String() == rt.String()
+							if d.Op == "slice" && len(d.Args) >= 3 && d.Args[0].String() == rt.String() && (d.Args[1].Op == "none" || (d.Args[1].IsConst() && d.Args[1].Sym == "0")) &&
+								(d.Args[2].String() == "len("+in+")" || d.Args[2].String() == wd) {
+								dstOK = true
+							}
+							if dstOK && s.String() == in {
 								copies++
 							} else {
 								others++
